@@ -1013,6 +1013,11 @@ func (bg *BondgoCheck) Visit(n ast.Node) ast.Visitor {
 
 		bgsw.CurrentSwitch = fmt.Sprintf("%p", bgsw)
 
+		if x.Init != nil {
+			// Launch Walk on the init statement using the new BondgoCheck (as the if statement does)
+			ast.Walk(bgsw, x.Init)
+		}
+
 		// I there is tag ok, otherwise use  a bool settet to true (not 0)
 		if x.Tag != nil {
 			if newcell, ok := bgsw.Expr_eval(x.Tag); ok {
